@@ -34,7 +34,7 @@ func RunC14(tier string) int {
 			switch r.Intn(6) {
 			case 0, 1: // exit-status check
 				m := "markers/ok_" + t.Name
-				t.Checks = append(t.Checks, spec.Check{Marker: m})
+				t.Checks = append(t.Checks, spec.Check{Marker: m, Shape: rng.Pick(r, []string{"", "", "and", "nosete"})})
 				markers = append(markers, m)
 				switch r.Intn(3) {
 				case 0:
@@ -69,7 +69,7 @@ func RunC14(tier string) int {
 			if len(t.Checks) == 1 && r.Chance(1, 2) {
 				for j := r.Range(1, 2); j > 0; j-- {
 					m := fmt.Sprintf("markers/x%d_%s", j, t.Name)
-					c := spec.Check{Marker: m}
+					c := spec.Check{Marker: m, Shape: rng.Pick(r, []string{"", "", "and", "nosete"})}
 					if r.Chance(1, 2) {
 						c.Expected = "ok"
 					}
